@@ -6,6 +6,7 @@ import (
 	"encoding/binary"
 	"fmt"
 	"io"
+	"math/rand"
 	"net/http"
 	"net/http/httptest"
 	"net/url"
@@ -219,6 +220,9 @@ func framingCase(c map[string]interface{}) (out map[string]interface{}) {
 	}
 	out["panicked"] = false
 	out["n"], out["intact"], out["result"], out["allocok"] = 0, true, "error", true
+	if c["fam"] == "bytesgen" {
+		return bytesCases(c)
+	}
 	if c["fam"] == "cutgen" {
 		if c["unary"] == true {
 			return cutUnaryCases(c)
@@ -246,6 +250,166 @@ func framingCase(c map[string]interface{}) (out map[string]interface{}) {
 	}
 	out["n"], out["intact"], out["result"], out["allocok"] = n, intact, result, allocok
 	return out
+}
+
+// ---- random byte strings
+
+// abstractTape maps a byte string to the abstract tape of Framing: it reads
+// size prefixes and counts bytes, nothing else (whether a complete payload
+// decodes is asked of the protobuf library, not of grpchan).
+func abstractTape(body []byte) (segs []map[string]interface{}, msgs []*gt.Message) {
+	const limit = 100 * 1024 * 1024
+	for len(body) > 0 {
+		if len(body) < 4 {
+			segs = append(segs, map[string]interface{}{"pre": len(body), "size": "z", "have": "none", "valid": true})
+			return
+		}
+		sz := int64(int32(binary.BigEndian.Uint32(body[:4])))
+		body = body[4:]
+		cls, need := "s", sz
+		switch {
+		case sz == 0:
+			cls = "z"
+		case sz > limit:
+			cls, need = "over", -1
+		case sz == limit:
+			cls = "lim"
+		case sz == -2147483648:
+			cls, need = "min", -1
+		case sz < -limit:
+			cls, need = "trover", -1
+		case sz < 0:
+			cls, need = "tr", -sz
+		}
+		if need < 0 {
+			// the decoder must stop here
+			segs = append(segs, map[string]interface{}{"pre": 4, "size": cls, "have": "none", "valid": true})
+			return
+		}
+		if int64(len(body)) < need {
+			have := "short"
+			if len(body) == 0 {
+				have = "none"
+			}
+			segs = append(segs, map[string]interface{}{"pre": 4, "size": cls, "have": have, "valid": true})
+			return
+		}
+		payload := body[:need]
+		body = body[need:]
+		valid := true
+		if cls == "tr" {
+			// (a trailer that decodes but carries a non-OK code ends the call
+			// with that status: for the tape's purposes an error, like an
+			// undecodable one)
+			t := new(httpgrpc.HttpTrailer)
+			valid = proto.Unmarshal(payload, t) == nil && t.Code == 0
+		} else {
+			m := new(gt.Message)
+			valid = proto.Unmarshal(payload, m) == nil
+			if valid {
+				msgs = append(msgs, m)
+			}
+		}
+		segs = append(segs, map[string]interface{}{"pre": 4, "size": cls, "have": "full", "valid": valid})
+		if !valid || cls == "tr" {
+			// (what follows an undecodable payload or a trailer is never looked at;
+			// keep the tape short)
+			if cls == "tr" && len(body) > 0 {
+				continue
+			}
+			if !valid {
+				return
+			}
+		}
+	}
+	return
+}
+
+// bytesCases: n seeded random bodies, each given to the three decoders.
+func bytesCases(c map[string]interface{}) map[string]interface{} {
+	n := int(c["n"].(float64))
+	r := rand.New(rand.NewSource(int64(c["seed"].(float64))))
+	tr, _ := proto.Marshal(&httpgrpc.HttpTrailer{Code: 0, Message: "OK"})
+	trErr, _ := proto.Marshal(&httpgrpc.HttpTrailer{Code: 5, Message: "nf"})
+	pre := func(buf *bytes.Buffer, v int32) {
+		var p [4]byte
+		binary.BigEndian.PutUint32(p[:], uint32(v))
+		buf.Write(p[:])
+	}
+	var multi []map[string]interface{}
+	for i := 0; i < n; i++ {
+		var buf bytes.Buffer
+		for k, parts := 0, r.Intn(5); k < parts; k++ {
+			switch r.Intn(9) {
+			case 0, 1, 2: // a well-formed message
+				m := &gt.Message{Payload: randBytes(r, r.Intn(40)), Count: int32(r.Intn(5))}
+				if r.Intn(4) == 0 {
+					m = &gt.Message{}
+				}
+				b, _ := proto.Marshal(m)
+				pre(&buf, int32(len(b)))
+				buf.Write(b)
+			case 3: // a frame with a random payload
+				l := r.Intn(24)
+				pre(&buf, int32(l))
+				buf.Write(randBytes(r, l))
+			case 4: // a trailer
+				b := tr
+				if r.Intn(3) == 0 {
+					b = trErr
+				}
+				pre(&buf, int32(-len(b)))
+				buf.Write(b)
+			case 5: // a trailer with a random payload
+				l := 1 + r.Intn(16)
+				pre(&buf, int32(-l))
+				buf.Write(randBytes(r, l))
+			case 6: // a hostile size
+				pre(&buf, []int32{100 * 1024 * 1024, 100*1024*1024 + 1, 2147483647, -2147483648, -(100*1024*1024 + 1),
+					int32(r.Uint32()), int32(1 + r.Intn(70000)), -int32(1 + r.Intn(70000))}[r.Intn(8)])
+				buf.Write(randBytes(r, r.Intn(12)))
+			default: // garbage
+				buf.Write(randBytes(r, 1+r.Intn(11)))
+			}
+		}
+		body := buf.Bytes()
+		if len(body) > 0 && r.Intn(2) == 0 {
+			body = body[:r.Intn(len(body)+1)]
+		}
+		segs, msgs := abstractTape(body)
+		if segs == nil {
+			segs = []map[string]interface{}{}
+		}
+		for _, side := range []string{"client", "server-bidi", "server-ss"} {
+			ending := []string{"clean", "abrupt"}[r.Intn(2)]
+			o := map[string]interface{}{"fam": "tape", "segs": segs, "ending": ending, "side": side, "random": true,
+				"panicked": false, "body": fmt.Sprintf("%x", trunc(string(body), 48))}
+			func() {
+				defer func() {
+					if rec := recover(); rec != nil {
+						o["panicked"] = true
+					}
+				}()
+				var nn int
+				var intact, allocok bool
+				var result string
+				switch side {
+				case "client":
+					nn, intact, result, allocok = clientDecode(body, ending == "abrupt", msgs)
+				case "server-bidi":
+					nn, intact, result, allocok = serverDecode(body, ending == "abrupt", msgs, false)
+				default:
+					nn, intact, result, allocok = serverDecode(body, ending == "abrupt", msgs, true)
+				}
+				o["n"], o["intact"], o["result"], o["allocok"] = nn, intact, result, allocok
+			}()
+			if _, ok := o["n"]; !ok {
+				o["n"], o["intact"], o["result"], o["allocok"] = 0, true, "error", true
+			}
+			multi = append(multi, o)
+		}
+	}
+	return map[string]interface{}{"_multi": multi}
 }
 
 // lenRT replays a reply with a Content-Length: a body that ends before the
